@@ -3,7 +3,7 @@ import json, glob, re, os
 rows = {}
 for f in ['/verif/.work/mutfinal.txt']:
     for line in open(f):
-        m = re.match(r'(C\d+[bcdefg]?) rc=(\d) wall=(\d+)s :: (.*)', line)
+        m = re.match(r'(C\d+[b-z]?) rc=(\d) wall=(\d+)s :: (.*)', line)
         if not m:
             continue
         key, rc, wall, rest = m.groups()
@@ -14,9 +14,10 @@ out = ['# Seeded changes vs. the quick checks', '',
        'Each change was produced by an independent sub-agent that saw only the property text and its own scratch worktree (later waves:',
        'also one-line descriptions of the changes already tried for that property), was re-confirmed from its patch and demonstration alone',
        'in a fresh worktree (`tools/confirm_patch.sh`: same 30 tests pass; the demonstration exits 1 with and 0 without the change), and was',
-       'then given to the quick check of its property in another fresh worktree (`tools/allmut.sh`: `VERIF_REPO=<worktree> ./check <property> quick`;',
+       'then given to the quick check of its property in another fresh worktree (`tools/allmut.sh` / `tools/parmut.sh`: `VERIF_REPO=<worktree> ./check <property> quick`;',
        '/repo itself is never modified).  rc=1 means a reproduced VIOLATION; rc=0 means the check of that property stayed silent',
-       '(C04g, C13g: the change makes the run hang, which the C05 check reports for both and the C07 check for C04g - DESIGN.md section 13, eighth wave).', '',
+       '(C04g, C13g: the change makes the run hang, which the C05 check reports for both and the C07 check for C04g - DESIGN.md section 13, eighth wave;',
+       'C19i: conservation is broken while Buffer.is_empty() stays truthful in C19 terms - the C18 and C07 checks report it, tenth wave).', '',
        '| change | property | what it is | needs | check result | violation tags reported |', '|---|---|---|---|---|---|']
 for key in sorted(rows, key=lambda k: (k[:3], k[3:])):
     pid, rc, wall, tags = rows[key]
